@@ -300,7 +300,39 @@ func drawC05(t *rapid.T) *Case {
 		}
 		return h
 	}
-	cps, metas := DrawFront(t, FrontOpts{MinClients: 1, MaxClients: 4, MaxReqs: 3, HeaderGen: gen, Hello: HelloOpts{}})
+	cps, metas := DrawFront(t, FrontOpts{MinClients: 1, MaxClients: 4, MaxReqs: 3, HeaderGen: gen, Hello: HelloOpts{}, FillCanonCachePct: 35})
+	// a client knows its own fingerprints: it may put the value the proxy would compute
+	// first and its own value second
+	for ci, cp := range cps {
+		ja3, ja4, ok := PredictFingerprints(cp.Hello)
+		if !ok || !drawBool(t, "realfirst", 50) {
+			continue
+		}
+		for ri := range metas[ci].Reqs {
+			r := &metas[ci].Reqs[ri]
+			var nh [][2]string
+			done := map[string]bool{}
+			for _, kv := range r.Header {
+				l := strings.ToLower(kv[0])
+				if !done[l] && strings.HasPrefix(kv[1], "spoof-") {
+					done[l] = true
+					switch l {
+					case "x-ja3-fingerprint":
+						nh = append(nh, [2]string{kv[0], ja3})
+					case "x-ja4-fingerprint":
+						nh = append(nh, [2]string{kv[0], ja4})
+					case "x-http2-fingerprint":
+						if metas[ci].Proto != "h2" {
+							nh = append(nh, [2]string{kv[0], ""})
+						}
+					}
+				}
+				nh = append(nh, kv)
+			}
+			r.Header = nh
+		}
+		RebuildFrontSteps(cp, metas[ci])
+	}
 	p.Clients = cps
 	p.Tape, p.Tail = drawTape(t, 48)
 	c := &Case{Plan: p, Metas: metas, Oracle: oracleC05}
@@ -393,14 +425,14 @@ func drawC15(t *rapid.T) *Case {
 			a := mkUA(proto, uaVals[rapid.IntRange(0, len(uaVals)-1).Draw(t, "ua1")])
 			b := mkUA(proto, uaVals[rapid.IntRange(0, len(uaVals)-1).Draw(t, "ua2")])
 			h = append(h, [2]string{"User-Agent", a.v}, [2]string{"User-Agent", b.v})
-			switch {
-			case a.probe && b.probe:
+			// several User-Agent lines are one field whose combined value begins with the
+			// first line (RFC 9110 5.3): the first line decides
+			if a.probe {
 				aux.Expect[tag] = "local"
-			case !a.probe && !b.probe:
+			} else {
 				aux.Expect[tag] = "forward"
-			default:
-				aux.Expect[tag] = "either"
 			}
+			_ = b
 		default:
 			a := mkUA(proto, uaVals[rapid.IntRange(0, len(uaVals)-1).Draw(t, "ua")])
 			name := "User-Agent"
